@@ -37,6 +37,32 @@ ENTRIES = [
     V("S-v-gae-static-split-same", "C03", (RB, "        next_non_terminals = 1.0 - self.dones.astype(float)", "        if self.dones.ndim == 1:\n            next_non_terminals = 1.0 - self.dones.astype(float)\n        else:\n            next_non_terminals = 1.0 - self.dones.astype(float)")),
     M("S-gae-static-split-wrong-branch", "C03", "C03", (RB, "        next_non_terminals = 1.0 - self.dones.astype(float)", "        if self.dones.ndim == 1:\n            next_non_terminals = 1.0 - self.dones.astype(float)\n        else:\n            next_non_terminals = jnp.ones_like(self.dones, dtype=float)")),
     M("S-dqn-loss-static-split", "C07", "C07", (DQN, "        not_terminal = (~batch.dones | batch.timeouts).astype(float)", "        if gamma == 1.0:\n            not_terminal = jnp.ones_like(batch.rewards)\n        else:\n            not_terminal = (~batch.dones | batch.timeouts).astype(float)")),
+    # ---------------------------------------------------------------- restylings met in the behaviour-preserving round, and their broken twins
+    V("R-v-discrete-guards-merged", "C14", ("lerax/space/discrete.py", "        if x is None:\n            return jnp.array(False)\n\n        if x.ndim != 0:\n            return jnp.array(False)\n        x = x.squeeze()", "        if x is None or x.ndim != 0:\n            return jnp.array(False)\n        x = x.squeeze()")),
+    M("R-discrete-guards-merged-and", "C14", "C14.3", ("lerax/space/discrete.py", "        if x is None:\n            return jnp.array(False)\n\n        if x.ndim != 0:\n            return jnp.array(False)\n        x = x.squeeze()", "        if x is None and x.ndim != 0:\n            return jnp.array(False)\n        x = x.squeeze()")),
+    M("R-discrete-guards-merged-rank-flipped", "C14", "C14.3", ("lerax/space/discrete.py", "        if x is None:\n            return jnp.array(False)\n\n        if x.ndim != 0:\n            return jnp.array(False)\n        x = x.squeeze()", "        if x is None or x.ndim == 0:\n            return jnp.array(False)\n        x = x.squeeze()")),
+    V("R-v-actionlayer-early-return", "C16", (PA, "        if action_mask is not None and isinstance(dist, AbstractMaskableDistribution):\n            return cast(AbstractMaskableDistribution[ActType, MaskType], dist).mask(\n                action_mask\n            )\n\n        return dist", "        if action_mask is None or not isinstance(dist, AbstractMaskableDistribution):\n            return dist\n        return dist.mask(action_mask)")),
+    M("R-actionlayer-early-return-and", "C16", "C16.2", (PA, "        if action_mask is not None and isinstance(dist, AbstractMaskableDistribution):\n            return cast(AbstractMaskableDistribution[ActType, MaskType], dist).mask(\n                action_mask\n            )\n\n        return dist", "        if action_mask is None and not isinstance(dist, AbstractMaskableDistribution):\n            return dist\n        return dist.mask(action_mask)")),
+    M("R-actionlayer-early-return-unmaskable-only", "C16", "C16.2", (PA, "        if action_mask is not None and isinstance(dist, AbstractMaskableDistribution):\n            return cast(AbstractMaskableDistribution[ActType, MaskType], dist).mask(\n                action_mask\n            )\n\n        return dist", "        if not isinstance(dist, AbstractMaskableDistribution):\n            return dist\n        if action_mask is None:\n            return dist\n        return dist")),
+    V("R-v-serialize-keep-name", "C18", ("lerax/utils.py", "        if path.suffix != \".eqx\" and not no_suffix:\n            path = path.with_suffix(\".eqx\")", "        keep_name = path.suffix == \".eqx\" or no_suffix\n        path = path if keep_name else path.with_suffix(\".eqx\")")),
+    M("R-serialize-keep-name-and", "C18", "C18.2", ("lerax/utils.py", "        if path.suffix != \".eqx\" and not no_suffix:\n            path = path.with_suffix(\".eqx\")", "        keep_name = path.suffix == \".eqx\" and no_suffix\n        path = path if keep_name else path.with_suffix(\".eqx\")")),
+    V("R-v-serialize-keyword-args", "C18", ("lerax/utils.py", "        eqx.tree_serialise_leaves(path, self)", "        eqx.tree_serialise_leaves(pytree=self, path_or_file=path)")),
+    M("R-serialize-keyword-args-filter", "C18", "C18.3", ("lerax/utils.py", "        eqx.tree_serialise_leaves(path, self)", "        eqx.tree_serialise_leaves(pytree=self, path_or_file=path, is_leaf=lambda x: x is None)")),
+    V("R-v-gym-seed-inverted-branches", "C11", ("lerax/compatibility/gym.py", "        if \"seed\" in kwargs:\n            kwargs = dict(kwargs)\n            seed_value = kwargs.pop(\"seed\")\n            seed = jnp.asarray(seed_value, dtype=int)\n        else:\n            seed = jr.randint(key, (), 0, jnp.iinfo(jnp.int32).max)", "        if \"seed\" not in kwargs:\n            seed = jr.randint(key, (), 0, jnp.iinfo(jnp.int32).max)\n        else:\n            kwargs = dict(kwargs)\n            seed = jnp.asarray(kwargs.pop(\"seed\"), dtype=int)")),
+    M("R-gym-seed-inverted-constant", "C11", "C11.5", ("lerax/compatibility/gym.py", "        if \"seed\" in kwargs:\n            kwargs = dict(kwargs)\n            seed_value = kwargs.pop(\"seed\")\n            seed = jnp.asarray(seed_value, dtype=int)\n        else:\n            seed = jr.randint(key, (), 0, jnp.iinfo(jnp.int32).max)", "        if \"seed\" not in kwargs:\n            seed = jnp.asarray(0, dtype=int)\n        else:\n            kwargs = dict(kwargs)\n            seed = jnp.asarray(kwargs.pop(\"seed\"), dtype=int)")),
+    V("R-v-scalars-display", "C19", ("lerax/callback/logging/callback.py", "        scalars = {f\"train/{k}\": v for k, v in log.items()}\n        scalars[\"train/learning_rate\"] = learning_rate\n        scalars[\"episode/return\"] = step_state.average_return.mean()\n        scalars[\"episode/length\"] = step_state.average_length.mean()", "        scalars = {**{f\"train/{k}\": v for k, v in log.items()}, \"train/learning_rate\": learning_rate, \"episode/return\": step_state.average_return.mean(), \"episode/length\": step_state.average_length.mean()}")),
+    M("R-scalars-display-swapped", "C19", "C19.4", ("lerax/callback/logging/callback.py", "        scalars = {f\"train/{k}\": v for k, v in log.items()}\n        scalars[\"train/learning_rate\"] = learning_rate\n        scalars[\"episode/return\"] = step_state.average_return.mean()\n        scalars[\"episode/length\"] = step_state.average_length.mean()", "        scalars = {**{f\"train/{k}\": v for k, v in log.items()}, \"train/learning_rate\": learning_rate, \"episode/return\": step_state.average_length.mean(), \"episode/length\": step_state.average_return.mean()}")),
+    M("R-scalars-display-overwritten-by-log", "C19", "C19.4", ("lerax/callback/logging/callback.py", "        scalars = {f\"train/{k}\": v for k, v in log.items()}\n        scalars[\"train/learning_rate\"] = learning_rate\n        scalars[\"episode/return\"] = step_state.average_return.mean()\n        scalars[\"episode/length\"] = step_state.average_length.mean()", "        scalars = {\"train/learning_rate\": learning_rate, \"episode/return\": step_state.average_return.mean(), \"episode/length\": step_state.average_length.mean(), **log}")),
+    V("R-v-sac-target-partial", ["C07", "C10", "C11"], (SAC, "        def compute_target(next_obs, reward, done, timeout, action_key):\n            _, next_action, next_log_prob = policy.action_and_log_prob(\n                None, next_obs, key=action_key\n            )\n            q1_next = qf1_target(next_obs, next_action)\n            q2_next = qf2_target(next_obs, next_action)\n            min_q_next = jnp.minimum(q1_next, q2_next) - alpha * next_log_prob\n            not_terminal = (~done | timeout).astype(float)\n            return reward + self.gamma * min_q_next * not_terminal\n", "        compute_target = partial(_soft_td_target, policy, qf1_target, qf2_target, alpha, self.gamma)\n"), (SAC, "def _soft_update_targets[", "def _soft_td_target(policy, qf1_target, qf2_target, alpha, gamma, next_obs, reward, done, timeout, action_key):\n    _, next_action, next_log_prob = policy.action_and_log_prob(None, next_obs, key=action_key)\n    q1_next = qf1_target(next_obs, next_action)\n    q2_next = qf2_target(next_obs, next_action)\n    min_q_next = jnp.minimum(q1_next, q2_next) - alpha * next_log_prob\n    not_terminal = (~done | timeout).astype(float)\n    return reward + gamma * min_q_next * not_terminal\n\n\ndef _soft_update_targets["), (SAC, "from __future__ import annotations\n", "from __future__ import annotations\n\nfrom functools import partial\n")),
+    M("R-sac-target-partial-swapped", ["C07", "C10"], ["C07"], (SAC, "        def compute_target(next_obs, reward, done, timeout, action_key):\n            _, next_action, next_log_prob = policy.action_and_log_prob(\n                None, next_obs, key=action_key\n            )\n            q1_next = qf1_target(next_obs, next_action)\n            q2_next = qf2_target(next_obs, next_action)\n            min_q_next = jnp.minimum(q1_next, q2_next) - alpha * next_log_prob\n            not_terminal = (~done | timeout).astype(float)\n            return reward + self.gamma * min_q_next * not_terminal\n", "        compute_target = partial(_soft_td_target, policy, qf1_target, qf2_target, self.gamma, alpha)\n"), (SAC, "def _soft_update_targets[", "def _soft_td_target(policy, qf1_target, qf2_target, alpha, gamma, next_obs, reward, done, timeout, action_key):\n    _, next_action, next_log_prob = policy.action_and_log_prob(None, next_obs, key=action_key)\n    q1_next = qf1_target(next_obs, next_action)\n    q2_next = qf2_target(next_obs, next_action)\n    min_q_next = jnp.minimum(q1_next, q2_next) - alpha * next_log_prob\n    not_terminal = (~done | timeout).astype(float)\n    return reward + gamma * min_q_next * not_terminal\n\n\ndef _soft_update_targets["), (SAC, "from __future__ import annotations\n", "from __future__ import annotations\n\nfrom functools import partial\n")),
+    M("R-polyak-filter-wrong-net", "C10", "C10.5", (SAC, "        target_arrays, _ = eqx.partition(target, eqx.is_inexact_array)", "        target_arrays = eqx.filter(online, eqx.is_inexact_array)")),
+    V("R-v-polyak-filter", "C10", (SAC, "        target_arrays, _ = eqx.partition(target, eqx.is_inexact_array)", "        target_arrays = eqx.filter(target, eqx.is_inexact_array)")),
+    M("R-box-flat-size-prod-tail", "C14", "C14.8", ("lerax/space/box.py", "        return reduce(operator.mul, self.shape, 1)", "        import math\n        return math.prod(self.shape[1:])")),
+    V("R-v-box-flat-size-prod", "C14", ("lerax/space/box.py", "        return reduce(operator.mul, self.shape, 1)", "        import math\n        return math.prod(self.shape)")),
+    M("N-replay-alloc-shape-reversed", ["C05", "C06"], ["C06"], (RPB, "(self.size,) + arr.shape)", "arr.shape + (self.size,))")),
+    M("N-flatten-shape-reversed", "C06", "C06", ("lerax/buffer/base_buffer.py", "(leading,) + moved.shape[num_axes:])", "moved.shape[num_axes:] + (leading,))")),
+    V("N-v-flatten-shape-star", "C06", ("lerax/buffer/base_buffer.py", "(leading,) + moved.shape[num_axes:])", "(leading, *moved.shape[num_axes:]))")),
+    V("N-v-replay-alloc-shape-star", ["C05", "C06"], (RPB, "(self.size,) + arr.shape)", "(self.size, *arr.shape))")),
     M("C07-x-timeouts-raw-position", "C07", "C07.7", (RPB, "timeouts = self.timeouts.at[idx].set(timeout)", "timeouts = self.timeouts.at[self.position].set(timeout)")),
     M("C07-x-dones-other-slot", "C07", "C07.7", (RPB, "dones = self.dones.at[idx].set(done)", "dones = self.dones.at[idx - 1].set(done)")),
     M("C11-x-branch-on-callback-state", "C11", "C11.3", (OFP, "        callback_state = callback.reset(ResetContext(locals()), key=callback_key)\n\n        return AbstractOffPolicyState(", "        if jax.tree.leaves(step_state.callback_state):\n            step_state = eqx.tree_at(lambda s: s.env_state, step_state, step_state.env_state)\n            init_key = starts_key\n        callback_state = callback.reset(ResetContext(locals()), key=callback_key)\n        if jax.tree.leaves(callback_state):\n            policy = jax.tree.map(lambda x: x, policy)\n\n        return AbstractOffPolicyState(")),
